@@ -32,6 +32,9 @@ func c07Scenarios() []c07Scenario {
 		{Name: "reprioritise", Init: R0, Setup: []Op{A("fa"), B("fb")}, Test: single(IntentSpec{Owner: "A", Prio: 25, Frag: "fa"})},
 		{Name: "choice-switch", Init: R0, Setup: []Op{single(IntentSpec{Owner: "B", Prio: 20, Frag: "ca2"})}, Test: single(IntentSpec{Owner: "A", Prio: 10, Frag: "cb1"})},
 		{Name: "multi-key", Init: R0, Setup: []Op{A("mk4")}, Test: A("mk5")},
+		// the request brings the shadowed case of a choice: nothing may reach the device, with or without a fault
+		{Name: "choice-shadowed", Init: R0, Setup: []Op{A("ca1")}, Test: B("cb1")},
+		{Name: "shadowed-create", Init: R1, Setup: []Op{A("fa")}, Test: B("fa1")},
 	}
 }
 
